@@ -1,11 +1,12 @@
 #!/bin/bash
-# Build the whole Coq development from files on disk (offline).  Regenerates coq/Gen from /repo first.
+# Build the whole Coq development from files on disk (offline).  Regenerates coq/Gen from the repo first.
 set -e
 cd "$(dirname "$0")"
-export PYTHONPATH=/repo:/verif PYTHONHASHSEED=0 PYTHONDONTWRITEBYTECODE=1 PYTHONWARNINGS=ignore
+export ACN_REPO="${ACN_REPO:-/repo}"
+export PYTHONPATH="$ACN_REPO:$PWD" PYTHONHASHSEED=0 PYTHONDONTWRITEBYTECODE=1 PYTHONWARNINGS=ignore
 /venv/bin/python - <<'PY'
-import sys
-sys.path.insert(0, "/verif/tools")
+import sys, os
+sys.path.insert(0, os.path.join(os.getcwd(), "tools"))
 from harness import core
 changed, errs = core.regen()
 for e in errs:
